@@ -8,7 +8,7 @@
    validation rule (C07) -- see C05_variable_substituted_everywhere, which shows the literal
    path performs no type check of its own. *)
 From Coq Require Import ZArith List String Bool.
-From TV Require Import Py.Prelude Model.Schema Model.ImplInput Proofs.LiteralFacts.
+From TV Require Import Py.Prelude Model.Schema Model.ImplInput Model.SpecArgs Proofs.LiteralFacts Proofs.ArgsRefine.
 Import ListNotations.
 Open Scope string_scope.
 
@@ -26,6 +26,23 @@ Theorem C05_argument_variable_passthrough fuel ad floc a vs x l v :
   (is_none v = false \/ is_non_null (in_type ad) = false) -> is_undef v = false ->
   argument_coercer sch fuel ad floc (Some a) vs = Ok (AVal v).
 Proof. exact (argument_variable_passthrough sch fuel ad floc a vs x l v). Qed.
+
+(* Refinement to the specification's CoerceArgumentValues (Model/SpecArgs.v, written from the
+   specification text with the literal coercion of a non-variable value as its only parameter):
+   for EVERY argument definition, argument node (present with any value, a variable, or absent),
+   variable map and fuel, the implementation model gives the specification's outcome: no entry,
+   this value, or a field error. *)
+Theorem C05_argument_coercion_refines_the_specification fuel ad floc anode vs :
+  res_matches (argument_coercer sch fuel ad floc anode vs)
+              (spec_argument (impl_coerce_literal sch fuel vs) ad anode vs).
+Proof. exact (argument_coercer_refines sch fuel ad floc anode vs). Qed.
+
+(* ... and for the whole argument map of a field or directive: the same dictionary reaches the
+   resolver, and argument errors are raised exactly when the specification throws a field error *)
+Theorem C05_argument_map_refines_the_specification fuel ads floc anodes vs :
+  map_matches (coerce_arguments_aux sch fuel ads floc anodes vs)
+              (spec_arguments (impl_coerce_literal sch fuel vs) ads anodes vs).
+Proof. exact (coerce_arguments_refines sch fuel ads floc anodes vs). Qed.
 
 Theorem C05_argument_omitted fuel ad floc vs :
   in_default ad = None ->
@@ -85,3 +102,5 @@ Print Assumptions C05_argument_explicit_null.
 Print Assumptions C05_argument_unprovided_variable.
 Print Assumptions C05_default_eq_literal.
 Print Assumptions C05_failure_is_local.
+Print Assumptions C05_argument_coercion_refines_the_specification.
+Print Assumptions C05_argument_map_refines_the_specification.
